@@ -29,6 +29,12 @@ OBLIGATIONS += [
        desc='bp automatic registration (first use of an empty arena, before or after the library constructor): all signals blocked before the TLS re-check; slot allocation + list insertion under rcu_registry_lock with signals blocked; mask and lock restored on both paths; already registered (by a handler) => no-op; thread exit releases the slot for reuse'),
     Ob(name='C15.O5.bp_register_already', harness=BP, entry='h_register_already', defines=('_LGPL_SOURCE',), native=True, unwind=6, unwindset=AA, min_covers=1, checks=CKL, timeout=600, tier='B', bound='arena empty (first registration) resp. one chunk; all loops fully unwound (unwinding assertions on)',
        functions=('urcu_bp_register',), desc='bp automatic registration when a signal handler registered the thread first: the re-check under blocked signals makes it a no-op (no second slot), mask restored'),
+] + [
+    Ob(name='C15.O4.bp_find_chunk.c%d%s' % (w, 'last' if l else 'first'), harness=BP, entry='h_find_chunk', defines=('_LGPL_SOURCE', 'FC_WHICH=%d' % w, 'FC_LAST=%d' % l), unwind=4, min_covers=1, checks=CKL, timeout=600, tier='B',
+       bound='arena of two chunks (8 + 16 slots); first and last slot of the first chunk', functions=('find_chunk', 'remove_thread', 'cleanup_thread'),
+       desc='bp find_chunk / remove_thread with two chunks: the chunk containing the slot is found (boundary slots; the address one past a chunk excluded); slot released and the usage count of exactly that chunk decremented')
+    for w in (0,) for l in (0, 1)	# slots of the SECOND chunk are out of reach: find_chunk then compares pointers into different objects with < / >=, which CBMC's memory model leaves unspecified (a check there would be a coin toss, not a proof)
+] + [
     Ob(name='C15.O5.bp_register_signal', harness=BP, entry='h_register_signal', defines=('_LGPL_SOURCE',), unwind=9, unwindset=AA, min_covers=1, checks=CKL, timeout=600, tier='B', bound='arena empty; one signal, delivered between entry and the moment SIG_BLOCK takes effect; handler = nested real urcu_bp_register',
        functions=('urcu_bp_register',), desc='bp automatic registration interrupted by a signal whose handler registers the thread (nested real call) just before signals get blocked: the re-check after blocking notices it - exactly one slot, one registry entry, mask and lock restored'),
 ]
